@@ -69,7 +69,12 @@ def judge_state(ctx, az, steps, rng):
     res = [vw & hp for vw, hp in zip(vws, has)]
     ctx.count("states_seen")
     if any(r.sum() < 1 for r in res) or sum(r.sum() for r in res) < 2 or sum(v.sum() for v in vws) < 2:
-        ctx.count("states_not_judged")
+        # an azimuth with accepted windows but no peak (e.g. no curve of it peaks inside the search range): the resonance
+        # statistics are undefined, the mean-curve statistics are not - every azimuth still weighs 1/n_azimuths
+        if all(v.sum() >= 1 for v in vws) and sum(v.sum() for v in vws) >= 2:
+            judge_curves_only(ctx, az, steps, vws)
+        else:
+            ctx.count("states_not_judged")
         return False
     masks_differ = any(not np.array_equal(vw, r) for vw, r in zip(vws, res))
     ctx.count("states_judged")
@@ -187,6 +192,54 @@ def judge_state(ctx, az, steps, rng):
     return len({int(r.sum()) for r in res}) > 1
 
 
+def judge_curves_only(ctx, az, steps, vws):
+    hs = az.hvsrs
+    rows = np.vstack([h.amplitude[vw] for h, vw in zip(hs, vws)])
+    wc = MS.weights([int(vw.sum()) for vw in vws])
+    ctx.count("states_judged_curves_only")
+    info = dict(n_azimuths=len(hs), accepted=[int(v.sum()) for v in vws],
+                with_peak=[int((v & ~np.isnan(h._main_peak_frq) & h.valid_peak_boolean_mask).sum()) for h, v in zip(hs, vws)],
+                steps=[s[0] for s in steps][-4:])
+    for dist in ("normal", "lognormal"):
+        want = {"mean_curve": MS.wmean(rows, wc, dist), "std_curve": MS.wstd(rows, wc, dist)}
+        want["nth_std_curve(1.0)"] = MS.nth(want["mean_curve"], want["std_curve"], 1.0, dist)
+        tc = (np.max(np.abs(np.log(rows))) if dist == "lognormal" else np.max(np.abs(rows))) + 1.0
+        for name, w in want.items():
+            try:
+                with np.errstate(all="ignore"):
+                    g = az.nth_std_curve(1.0, dist) if name.startswith("nth") else getattr(az, name)(dist)
+            except Exception as e:
+                g = ("raises", type(e).__name__, str(e)[:80])
+            ok = (not is_raise(g)) and np.shape(g) == np.shape(w) and bool(np.all(np.abs(np.asarray(g, float) - w) <= 1e-9 * np.abs(w) + 1e-11 * tc))
+            ctx.check(ok, "weighted-estimator", f"{name}({dist}) differs from the equal-azimuth-weight estimator (an azimuth has accepted "
+                      "windows but no peak)", accessor=name, distribution=dist, got=g, want=w, **info)
+
+
+def fam_azimuth_without_peak(ctx, rng):
+    """One azimuth whose curves all peak outside the search range: it keeps its accepted windows, has no valid peak."""
+    import hvsrpy
+    naz = int(rng.integers(2, 6))
+    f = np.geomspace(0.3, 30, 48)
+    lf = np.log(f)
+    odd = int(rng.integers(0, naz))
+    hv = []
+    for a in range(naz):
+        nc = int(rng.integers(2, 8))
+        centre = np.log(12.0) if a == odd else np.log(float(rng.uniform(1.5, 3.5)))
+        amp = 1.0 + rng.uniform(1, 4, (nc, 1)) * np.exp(-0.5 * ((lf[None, :] - (centre + rng.normal(0, 0.05, (nc, 1)))) / 0.15) ** 2)
+        hv.append(hvsrpy.HvsrTraditional(f, amp))
+    az = hvsrpy.HvsrAzimuthal(hv, list(np.linspace(0, 150, naz)))
+    az.update_peaks_bounded(search_range_in_hz=(0.8, 6.0))
+    steps = [["range", [0.8, 6.0]]]
+    judge_state(ctx, az, steps, rng)
+    if rng.random() < 0.5:
+        steps.append(histories.step_manual(rng, az, az.hvsrs))
+        judge_state(ctx, az, steps, rng)
+    ctx.describe(n_azimuths=naz, azimuth_without_peak=odd, n_curves=[int(h.n_curves) for h in az.hvsrs], steps=steps,
+                 valid_peaks=[int(h.valid_peak_boolean_mask.sum()) for h in az.hvsrs])
+    ctx.nontrivial(["no-peak-azimuth", naz, odd, [int(h.n_curves) for h in az.hvsrs]])
+
+
 def fam_history(ctx, rng):
     az = histories.build_azimuthal(rng)
     nontriv = judge_state(ctx, az, [], rng)
@@ -225,5 +278,5 @@ def fam_single_azimuth(ctx, rng):
     ctx.nontrivial(["single", int(az.hvsrs[0].n_curves), az.hvsrs[0].valid_window_boolean_mask.tolist()])
 
 
-FAMILIES = [("random-history", fam_history), ("manual-unequal-counts", fam_manual_unequal),
+FAMILIES = [("azimuth-without-peak", fam_azimuth_without_peak), ("random-history", fam_history), ("manual-unequal-counts", fam_manual_unequal),
             ("single-azimuth", fam_single_azimuth), ("random-history-2", fam_history)]
